@@ -5,6 +5,7 @@ P="$(realpath "$1")"; shift
 exec 9>/tmp/verif-repo.lock; flock 9
 git -C /repo diff --quiet || { echo "/repo has uncommitted changes" >&2; exit 2; }
 git -C /repo apply "$P" || { echo "patch does not apply" >&2; exit 2; }
-"$@"; rc=$?
+# evidence/ describes the unchanged tree only: a run against a patched /repo writes its evidence elsewhere
+VERIF_EVIDENCE_DIR=/verif/out/evidence-alt/patched "$@"; rc=$?
 git -C /repo checkout -- .
 exit $rc
